@@ -1,6 +1,7 @@
 package vkit
 
 import (
+	"crypto/sha256"
 	"encoding/binary"
 	"encoding/json"
 	"fmt"
@@ -199,17 +200,17 @@ func (r *Recorder) Flush() {
 	r.mu.Lock()
 	defer r.mu.Unlock()
 	rep := map[string]any{
-		"property":             r.ID,
-		"rule":                 r.Rule,
-		"evaluations":          r.Evaluations,
-		"nontrivial":           r.NonTrivial,
-		"distinct_nontrivial":  len(r.hashes),
-		"grey":                 r.Grey,
-		"labels":               r.Labels,
-		"excluded_known":       r.Excluded,
-		"samples":              r.samples,
-		"extra":                r.Extra,
-		"wall_s":               time.Since(r.start).Seconds(),
+		"property":            r.ID,
+		"rule":                r.Rule,
+		"evaluations":         r.Evaluations,
+		"nontrivial":          r.NonTrivial,
+		"distinct_nontrivial": len(r.hashes),
+		"grey":                r.Grey,
+		"labels":              r.Labels,
+		"excluded_known":      r.Excluded,
+		"samples":             r.samples,
+		"extra":               r.Extra,
+		"wall_s":              time.Since(r.start).Seconds(),
 	}
 	b, _ := json.MarshalIndent(rep, "", " ")
 	os.WriteFile(filepath.Join(r.outDir, "report.json"), b, 0o644)
@@ -419,4 +420,44 @@ func (p Prop[C]) Fuzz(f *testing.F, seeds [][]byte, decode func([]byte) (C, bool
 			t.Fatalf("VIOLATION %s: %s [%s]", p.ID, fresh[0].Msg, fresh[0].FP)
 		}
 	})
+}
+
+// FuzzGen runs the property's own generator under native coverage-guided fuzzing: the fuzz input is the bit stream rapid
+// draws from (rapid.MakeFuzz), so coverage feedback steers the very generator that TestRapid samples blindly. Inputs that
+// are too short for a complete case are skipped by rapid. Seeds are deterministic pseudo-random streams (sha256 counter
+// mode) of 2-32 KiB. The oracle is p.Run; a failing case is written to $VERIF_OUT/fail.json like in Fuzz.
+func (p Prop[C]) FuzzGen(f *testing.F) {
+	for i := 0; i < 12; i++ {
+		n := 2048 << uint(i%5)
+		b := make([]byte, 0, n)
+		for ctr := 0; len(b) < n; ctr++ {
+			h := sha256.Sum256([]byte(fmt.Sprintf("%s|seed %d|block %d", p.ID, i, ctr)))
+			b = append(b, h[:]...)
+		}
+		f.Add(b[:n])
+	}
+	rec := NewRecorder(p.ID, p.Rule)
+	var n, nt int
+	var last time.Time
+	countFile := filepath.Join(rec.OutDir(), fmt.Sprintf("fuzz-%d.count", os.Getpid()))
+	f.Fuzz(rapid.MakeFuzz(func(rt *rapid.T) {
+		c := p.Gen(rt)
+		if p.Track && os.Getenv("VERIF_TRACK") != "" {
+			cb, _ := json.Marshal(map[string]any{"property": p.ID, "case": c})
+			os.WriteFile(filepath.Join(rec.OutDir(), "current.json"), cb, 0o644)
+		}
+		res := p.Run(c)
+		n++
+		if res.NonTrivial {
+			nt++
+		}
+		if time.Since(last) > time.Second {
+			last = time.Now()
+			os.WriteFile(countFile, []byte(fmt.Sprintf("%d %d", n, nt)), 0o644)
+		}
+		if fresh := Judge(rec, p.ID, res); len(fresh) > 0 {
+			rec.WriteFail(c, fresh)
+			rt.Fatalf("VIOLATION %s: %s [%s]", p.ID, fresh[0].Msg, fresh[0].FP)
+		}
+	}))
 }
